@@ -4,7 +4,8 @@ lean/QV/Model/GateBinding.lean (driver command G).
 Histories over ONE real circuit object: plain executions (array initial states), executions
 with a `Circuit` as initial state, `m.samples()` / `m.frequencies()` of every measurement gate,
 `results[e].samples()` — all sequences of length <= 4 over {plain, circuit-initial-state, gate
-read} and seeded random longer ones.  Every execution has its own shot count and a
+read, read of the latest result} and seeded random longer ones, each with state vectors AND with
+density matrices (initial states as arrays, as the default, as circuits).  Every execution has its own shot count and a
 deterministic outcome of its own, so the rows a gate-level result answers identify the execution
 they come from.
 
@@ -38,7 +39,8 @@ def gb_run(spec, ops):
     ("Q", xs, nshots, how) (initial state = a circuit with X on the qubits xs) | ("M",) | ("R", e).
     Returns per op the canonical answer; executions are identified by their shot count."""
     n = spec["n"]
-    c = Circuit(n)
+    dm = bool(spec.get("dm"))
+    c = Circuit(n, density_matrix=dm)
     for a, b in spec["cnots"]:
         c.add(gates.CNOT(a, b))
     ms = [c.add(gates.M(*qs)) for qs in spec["regs"]]
@@ -73,10 +75,15 @@ def gb_run(spec, ops):
             try:
                 if op[0] in ("P", "Q"):
                     if op[0] == "P":
-                        st = np.zeros(2 ** n, dtype=complex)
-                        st[op[1]] = 1
+                        if op[1] is None:
+                            st = None
+                        else:
+                            st = np.zeros(2 ** n, dtype=complex)
+                            st[op[1]] = 1
+                            if dm:
+                                st = np.outer(st, st.conj())
                     else:
-                        st = Circuit(n)
+                        st = Circuit(n, density_matrix=dm)
                         for q in op[1]:
                             st.add(gates.X(q))
                         if not op[1]:
@@ -99,6 +106,8 @@ def gb_run(spec, ops):
                         for m, rr in zip(ms, rows):
                             f = m.frequencies(binary=False)
                             dec = [int("".join(str(int(b)) for b in row), 2) for row in np.asarray(rr)]
+                            if m.nshots != len(rr):
+                                fbad[len(out)] = "r %d, but m.nshots = %r" % (e, m.nshots)
                             if collections.Counter(f) != collections.Counter(dec):
                                 # the gate keeps its own frequency cache: judged at the SPEC positions only
                                 fbad[len(out)] = "r %d, but m.frequencies() %r is not the histogram of m.samples()" % (e, dict(f))
@@ -158,13 +167,15 @@ def concretise(rng, spec, kinds):
     ops, i = [], 0
     for k in kinds:
         if k == "P":
-            ops.append(("P", rng.randrange(2 ** n), shots[i], rng.randrange(3)))
+            ops.append(("P", None if rng.random() < 0.15 else rng.randrange(2 ** n), shots[i], rng.randrange(3)))
             i += 1
         elif k == "Q":
             ops.append(("Q", sorted(rng.sample(range(n), rng.randint(0, n))), shots[i], rng.randrange(3)))
             i += 1
         elif k == "M":
             ops.append(("M",))
+        elif k == "L":  # the samples of the most recent result
+            ops.append(("R", max(i - 1, 0)))
         else:
             ops.append(("R", k))
     return ops
@@ -179,7 +190,7 @@ def rand_spec(rng):
         regs = [qs[:cut], qs[cut:]]
     else:
         regs = [qs]
-    return {"n": n, "cnots": cn, "regs": regs}
+    return {"n": n, "cnots": cn, "regs": regs, "dm": False}
 
 
 def replay(spec, ops):
@@ -202,8 +213,8 @@ def run_suites(ctx):
     ctx.stat("tree_gate_binding_repaired" if rebind else "tree_gate_binding_unrepaired")
     cases = []
     for L in range(1, 5):
-        for kinds in itertools.product("PQM", repeat=L):
-            if "M" in kinds:
+        for kinds in itertools.product("PQML", repeat=L):
+            if "M" in kinds and kinds[0] in "PQ":
                 cases.append((rand_spec(rng) if L > 2 else spec0, list(kinds)))
     for _ in range(400 if ctx.thorough else 80):
         L = rng.randint(4, 9)
@@ -219,6 +230,8 @@ def run_suites(ctx):
                 kinds.append(rng.randrange(nex))
         kinds.append("M")
         cases.append((rand_spec(rng), kinds))
+    # every history in both modes: state vectors and density matrices
+    cases = [(dict(spec, dm=dmode), kinds) for spec, kinds in cases for dmode in (False, True)]
     lines, reals, bad_search = [], [], 0
     first_bad = None
     for spec, kinds in cases:
@@ -226,6 +239,7 @@ def run_suites(ctx):
         out, bad = gb_check(spec, ops)
         ctx.case(("gate-binding", json.dumps(spec), json.dumps(ops)))
         ctx.stat("gate_binding_ops", len(ops))
+        ctx.stat("gate_binding_dm" if spec["dm"] else "gate_binding_sv")
         lines.append(model_line(rebind, ops))
         reals.append((spec, ops, " | ".join(out)))
         if bad:
